@@ -22,14 +22,14 @@ func init() {
 	}
 	Props["C03"] = &PropSpec{
 		Level: "other",
-		Rules: []string{"R07", "R02", "R09", "R43"},
+		Rules: []string{"R07", "R02", "R09", "R43", "R18b"},
 		Explanation: "For all inputs: every output coordinate is ToGeomPoint of the intCentroid of a stored Quadrant; intCentroid/intExtent are written only from getQuadrantExtentAndCentroid, index-aligned (R07); its x and y formulas are mirror images (R02); both copies of the level arithmetic agree and use the root tile width and the constant 16 (R09).",
 		Decided: []string{"provenance of every output coordinate (R07)", "x/y symmetry of the pixel extent and centre formulas (R02)", "level = id + log2(tile width) + log2(16) in both places (R09)"},
 		NotDecided: []string{"the arithmetic itself (min + idx*span + span/2; deepestRes = XSpan/2^level)", "the bound by the reported deviation for grids that do not divide evenly"},
 	}
 	Props["C04"] = &PropSpec{
 		Level: "other",
-		Rules: []string{"R07", "R08", "R05"},
+		Rules: []string{"R07", "R08", "R05", "R18b", "R46"},
 		Explanation: "Clause 1 only (every output vertex is the pixel centre of some input vertex), for all inputs: outputs are centroids of stored quadrants (R07); quadrants are stored only by insertCoord, only for addresses computed from polygon vertices after the range check (R08); every vertex is inserted (R05).",
 		Decided:     []string{"clause 1: every output vertex is the pixel centre of an input vertex"},
 		NotDecided:  []string{"clause 2: half-pixel Chebyshev distance of every edge point", "clause 3: coverage equivalence beyond one pixel; holes stay holes, parts stay parts"},
@@ -86,7 +86,7 @@ func init() {
 	}
 	Props["C13"] = &PropSpec{
 		Level: "other",
-		Rules: []string{"R34", "R14", "R35", "R36", "R37"},
+		Rules: []string{"R34", "R14", "R35", "R36", "R37", "R45", "R28", "R30", "R11"},
 		Explanation: "Plumbing clauses for all flag combinations: every flag is declared once, read with its declared kind (urfave/cli returns the zero value silently otherwise), and reaches the option it names; the page size reaches TargetGeopackage.pagesize; overwrite guards os.Remove (R34, R14); same-typed arguments are not swapped (R35); validation gates all work; one target per validated id, stored under and named from that id, removed first under overwrite; tables are processed with source and every target switched to the table before the run and untouched afterwards (R36); the quadtree gate comes first inside validation (R37). Per-table content follows from C10-C12.",
 		Decided: []string{"flag table agreement (R34)", "option reads (R14)", "argument order (R35)", "order of operations in the action and in initGPKGTarget (R36)", "validation order (R37)"},
 		NotDecided: []string{"file-name construction for unusual paths (path.Split/Ext semantics)", "SQLite behaviour"},
@@ -100,7 +100,7 @@ func init() {
 	}
 	Props["C15"] = &PropSpec{
 		Level: "other",
-		Rules: []string{"R02", "R42", "R44"},
+		Rules: []string{"R02", "R42", "R44", "R16t"},
 		Explanation: "Pairing clauses for all tile matrix sets: width-flavoured operands only on the x side and height-flavoured only on the y side in FromNative, ToNative, MatrixSize, MatrixBoundingBox (R02); identical corner-of-origin case analysis (default falls through to TopLeft; BottomLeft) and sign convention in the three functions; one common ToXYPoint for the origin (R42).",
 		Decided:     []string{"operand pairing (R02)", "corner-of-origin agreement (R42)"},
 		NotDecided:  []string{"rounding (9 decimals) versus unrounded division at tile borders", "content of the EPSG axis table"},
